@@ -54,10 +54,10 @@ static u8_t *parse(std::vector<std::string> args)
   return get_v_opt((int)keep.size(), argv.data());
 }
 
-static const int NOPS = 15;
+static const int NOPS = 16;
 static const char *opname[NOPS] = {"encA(T1,n20,cbc,sha1)", "encB(T2,n70,ctr,md5)", "encC(T4,n100,ofb,sha256)", "decA(valid)", "decB(wrong key)", "decB(tampered)",
                                    "dec(garbage)", "dec(mode byte 9)", "verB(valid)", "verB(tampered)", "parse(-V)", "parse(-x unknown)", "parse(-dex aborts in cluster)",
-                                   "parse(-e -i F -o O -k K --cmode 2)", "decB(valid,T2)"};
+                                   "parse(-e -i F -o O -k K --cmode 2)", "decB(valid,T2)", "decB(valid) into an output that cannot be written (/dev/full)"};
 static void do_op(int op, bool &ret, std::vector<u8_t> &out)
 {
   OpResult r;
@@ -124,6 +124,18 @@ static void do_op(int op, bool &ret, std::vector<u8_t> &out)
   case 14:
     r = wv_decrypt(fx.fileB, fx.keyB, 2);
     break;
+  case 15:
+  { // the verdict is fine but every write to the output fails: whatever the operation reports, it must leave no residue
+    MemFile in(fx.fileB);
+    FILE *full = fopen("/dev/full", "wb");
+    Settings st(-1, -1, true);
+    {
+      runcrypt rc(in.f, full, fx.keyB.data(), st, 2);
+      r.ret = rc.execute_decrypt(fx.fileB.size());
+    }
+    r.out.clear();
+    break;
+  }
   }
   ret = r.ret;
   out = r.out;
